@@ -234,7 +234,11 @@ def main(argv=None):
         rc = 2
         for u in undecided:
             printed.append('UNDECIDED property=%s reason=%s' % (pid, u[:400]))
-    discharged = max(0, total_obl - len(violations))
+    # obligations failing exactly as listed in known_findings.json are reported (KNOWN-FINDING lines) and are NOT part of the claim:
+    # `obligations` counts what this run claims, `discharged` how many of those the verifiers accepted
+    generated_obl = total_obl
+    total_obl = max(0, total_obl - len(known_hits))
+    discharged = max(0, total_obl - len(new_viol))
     wall = round(time.time() - t0, 2)
     level = P['level']
     ev = dict(property_id=pid, tier=a.tier, seed=seed, level=level, wall_s=wall, violations=len(new_viol),
@@ -243,7 +247,8 @@ def main(argv=None):
                             trusted_base=P.get('trusted_base', []) + ['Verus 0.2026.09.13 + Z3', 'Kani 0.68 + CBMC 6.11', 'rustc front ends',
                                                                        'tools/{rsx,weave,vrun,krun}.py (extraction, rewrite rules, mapping)'],
                             functions_under_contract=unit_rows, by_backend=by_backend, samples=samples,
-                            known_findings=[h['text'] for h, _ in known_hits], undecided=undecided,
+                            obligations_generated=generated_obl, known_finding_diagnostics=len(known_hits),
+                            known_findings=sorted(set(h['text'] for h, _ in known_hits)), undecided=undecided,
                             explanation=P.get('explanation', ''), bounded=P.get('bounded', []), seed_stability=stability, seeded_self_test=self_test,
                             not_covered=P.get('not_covered', []),
                             dropped_by_extraction='#[cfg(test)] modules, doc comments, #[derive]/#[error]/#[inline]/#[cfg_attr]/#[non_exhaustive]/#[default] attributes (derived impls re-declared with assumed structural specs), every item not named by a //@item, //@verify or //@assume directive'),
